@@ -354,6 +354,7 @@ type vfReq struct {
 	Headers    [][2]string `json:"headers,omitempty"`
 	Body       []byte      `json:"body,omitempty"`
 	RemoteAddr string      `json:"remote_addr,omitempty"` // direct driver only
+	GiveUpAfter time.Duration `json:"give_up_after,omitempty"` // direct driver: the client gives up (request context cancelled) after this long; 0 = 60 s
 	HTTPS      bool        `json:"https,omitempty"`       // direct driver: pretend TLS (req.TLS != nil is not modelled; sets URL.Scheme only via X-F-P when proxied)
 }
 
@@ -488,10 +489,10 @@ func (p *vfProxy) Do(r *vfReq) (resp *vfResp) {
 	if req == nil {
 		return &vfResp{Code: 400, Header: http.Header{}, Invalid: bad}
 	}
-	return p.serve(req)
+	return p.serve(req, r.GiveUpAfter)
 }
 
-func (p *vfProxy) serve(req *http.Request) (resp *vfResp) {
+func (p *vfProxy) serve(req *http.Request, giveUp time.Duration) (resp *vfResp) {
 	vfBuildMu.RLock()
 	defer vfBuildMu.RUnlock()
 	rw := httptest.NewRecorder()
@@ -507,7 +508,10 @@ func (p *vfProxy) serve(req *http.Request) (resp *vfResp) {
 				resp.Stack = string(debug.Stack())
 			}
 		}()
-		ctx, cancel := context.WithTimeout(req.Context(), 60*time.Second)
+		if giveUp <= 0 {
+			giveUp = 60 * time.Second
+		}
+		ctx, cancel := context.WithTimeout(req.Context(), giveUp)
 		defer cancel()
 		p.Handler.ServeHTTP(rw, req.WithContext(ctx))
 	}()
